@@ -76,7 +76,8 @@ Print Assumptions C11_topsort_respects_collected_graph_partial.
 (* THE COMPLETENESS LINK.  Outside the finding classes dependency collection succeeds (no fuel
    exhaustion, no unwrap/expect panic) and the collected graph is the reference relation, row by
    row: the row of EVERY item - struct, enum (tuple payloads and struct-variant fields), alias,
-   const - holds exactly the positions of the items it refers to *)
+   const - holds exactly the positions of the items it refers to (a reference = an identifier of one
+   of its types at ANY depth: arguments of generic types, typeshared or not, nested or not, included) *)
 Theorem C11_collected_graph_is_reference_graph :
   forall things : list ritem, known_C11 things = None ->
     exists dag, build_dag things = Ok dag /\
@@ -146,14 +147,6 @@ Theorem C11_generic_param_shadow_refuted :
 Proof. exact Proofs.C11Link.C11_generic_param_shadow_refuted. Qed.
 Print Assumptions C11_generic_param_shadow_refuted.
 
-(* struct A { f: G<Vec<u8>>, g: B }  struct B {}  struct G<T> { f: T }  struct Vec { f: A } *)
-Theorem C11_special_id_collision_refuted :
-  Proofs.C11Link.c11_refutes "C11-special-id-collision"
-    [w_struct "A" [] [RGeneric (lit "G") [RVec (RPrim PU8)]; w_s "B"]; w_struct "B" [] [];
-     w_struct "G" ["T"] [w_s "T"]; w_struct "Vec" [] [w_s "A"]].
-Proof. exact Proofs.C11Link.C11_special_id_collision_refuted. Qed.
-Print Assumptions C11_special_id_collision_refuted.
-
 (* type A<T> = Vec<T>;  struct T { f: A<u8> } *)
 Theorem C11_alias_generic_shadow_refuted :
   Proofs.C11Link.c11_refutes "C11-alias-generic-shadow"
@@ -192,19 +185,72 @@ Theorem C11_enum_chain_fixed :
 Proof. exact Proofs.C11Link.C11_enum_chain_fixed. Qed.
 Print Assumptions C11_enum_chain_fixed.
 
-(* struct A { f: Unknown<B> }  struct B {} *)
-Theorem C11_generic_arg_depth_refuted :
-  Proofs.C11Link.c11_refutes "C11-generic-arg-depth"
-    [w_struct "A" [] [RGeneric (lit "Unknown") [w_s "B"]]; w_struct "B" [] []].
-Proof. exact Proofs.C11Link.C11_generic_arg_depth_refuted. Qed.
-Print Assumptions C11_generic_arg_depth_refuted.
+(* regression pins of the two classes repaired in the Generic arm of get_dependencies_from_type (fix 25: every argument
+   of every generic type is followed; former `_refuted` witnesses).
+   c11_pinned_as w names := c11_pinned_ok w /\ exists out, topsort w = Ok out /\ (original names of out) = names *)
 
-(* struct Foo<T> { f: Foo<Zed> }  struct Zed {}: the arguments of a Generic named like the collecting item are never visited *)
-Theorem C11_generic_arg_depth_own_name_refuted :
-  Proofs.C11Link.c11_refutes "C11-generic-arg-depth"
-    [w_struct "Foo" ["T"] [RGeneric (lit "Foo") [w_s "Zed"]]; w_struct "Zed" [] []].
-Proof. exact Proofs.C11Link.C11_generic_arg_depth_own_name_refuted. Qed.
-Print Assumptions C11_generic_arg_depth_own_name_refuted.
+(* struct A { f: Unknown<B> }  struct B {}: formerly C11-generic-arg-depth (argument of a generic type that is no item) *)
+Theorem C11_generic_arg_depth_fixed :
+  Proofs.C11Link.c11_pinned_as
+    [w_struct "A" [] [RGeneric (lit "Unknown") [w_s "B"]]; w_struct "B" [] []] ["B"; "A"].
+Proof. exact Proofs.C11Link.C11_generic_arg_depth_fixed. Qed.
+Print Assumptions C11_generic_arg_depth_fixed.
+
+(* struct Foo<T> { f: Foo<Zed> }  struct Zed {}: formerly C11-generic-arg-depth (the arguments of a Generic named like the
+   collecting item were never visited) *)
+Theorem C11_generic_arg_depth_own_name_fixed :
+  Proofs.C11Link.c11_pinned_as
+    [w_struct "Foo" ["T"] [RGeneric (lit "Foo") [w_s "Zed"]]; w_struct "Zed" [] []] ["Zed"; "Foo"].
+Proof. exact Proofs.C11Link.C11_generic_arg_depth_own_name_fixed. Qed.
+Print Assumptions C11_generic_arg_depth_own_name_fixed.
+
+(* struct A { f: G<Vec<B>>, g: Option<G<G<HashMap<String, C>>>> }  struct B {}  struct C {}  struct G<T> { f: T }:
+   formerly C11-generic-arg-depth (nested arguments of a typeshared generic) *)
+Theorem C11_generic_arg_depth_nested_fixed :
+  Proofs.C11Link.c11_pinned_as
+    [w_struct "A" [] [RGeneric (lit "G") [RVec (w_s "B")];
+                      ROption (RGeneric (lit "G") [RGeneric (lit "G") [RHashMap (RPrim PString) (w_s "C")]])];
+     w_struct "B" [] []; w_struct "C" [] []; w_struct "G" ["T"] [w_s "T"]]
+    ["G"; "B"; "C"; "A"].
+Proof. exact Proofs.C11Link.C11_generic_arg_depth_nested_fixed. Qed.
+Print Assumptions C11_generic_arg_depth_nested_fixed.
+
+(* struct A { f: G<Vec<u8>>, g: B }  struct B {}  struct G<T> { f: T }  struct Vec { f: A }: formerly
+   C11-special-id-collision (the id() "Vec" of a special type standing as an argument was looked up as an item name) *)
+Theorem C11_special_id_collision_fixed :
+  Proofs.C11Link.c11_pinned_as
+    [w_struct "A" [] [RGeneric (lit "G") [RVec (RPrim PU8)]; w_s "B"]; w_struct "B" [] [];
+     w_struct "G" ["T"] [w_s "T"]; w_struct "Vec" [] [w_s "A"]]
+    ["G"; "B"; "A"; "Vec"].
+Proof. exact Proofs.C11Link.C11_special_id_collision_fixed. Qed.
+Print Assumptions C11_special_id_collision_fixed.
+
+(* what the two edge classifications of known_C11 mean since that repair.  A recorded edge a -> b (a <> b) that is no
+   reference of a: b is named like one of a's OWN generic parameters (the only phantom class left) *)
+Theorem C11_phantom_edge_is_param_shadow :
+  forall a b : ritem, edge_visible a b = true -> same_item a b = false -> refers a b = false ->
+    mem_str (original (item_id b)) (item_generics a) = true.
+Proof. exact Proofs.C11Link.phantom_is_param_shadow. Qed.
+Print Assumptions C11_phantom_edge_is_param_shadow.
+
+(* a reference to b's ORIGINAL name that is not recorded: the referring item is a RustEnum::Unit whose variants carry
+   types - IR the parser never builds (Spec/C07BackSpec.v enum_wf); every other unrecorded reference is by the renamed
+   name only (C11-renamed).  The class name C11-unit-enum-payload keeps that shape out of the theorems' domain; it is no
+   finding of the tool *)
+Theorem C11_unrecorded_original_reference_is_unit_enum :
+  forall a b : ritem, refers a b = true -> edge_visible a b = false ->
+    mem_str (original (item_id b)) (mentions a) = true ->
+    exists sh, a = ItEnum (EUnit sh) /\ flat_map variant_types (evariants sh) <> [].
+Proof. exact Proofs.C11Link.unrecorded_original_is_unit_enum. Qed.
+Print Assumptions C11_unrecorded_original_reference_is_unit_enum.
+
+(* enum U { V(B) } handed over as RustEnum::Unit  struct B {}: that shape is outside the domain for a reason *)
+Theorem C11_unit_enum_payload_outside_domain :
+  Proofs.C11Link.c11_refutes "C11-unit-enum-payload"
+    [ItEnum (EUnit {| eid := Proofs.C11Link.w_id "U"; egenerics := []; ecomments := []; evariants := [VTuple (w_s "B") w_vsh];
+                      edecs := []; erecursive := false; eredacted := false |}); w_struct "B" [] []].
+Proof. exact Proofs.C11Link.C11_unit_enum_payload_outside_domain. Qed.
+Print Assumptions C11_unit_enum_payload_outside_domain.
 
 (* type A = Vec<SR>;  #[serde(rename = "SR")] struct S {} *)
 Theorem C11_renamed_refuted :
